@@ -72,7 +72,7 @@ func cmdVerify(args []string) {
 		}
 		for _, key := range keys {
 			fc := cf.Funcs[key]
-			if fc == nil || strings.HasPrefix(key, "iface ") {
+			if fc == nil || strings.HasPrefix(key, "iface ") || strings.HasPrefix(key, "fv ") {
 				if fc == nil {
 					fmt.Println("no contract for", key)
 				}
